@@ -27,7 +27,16 @@ def tasks(tier, seed):
         r = seed % len(corner)
         corner = (corner[r:] + corner[:r])[:4]
     boxes += [(b, partops.CORNER_BOXES[b]) for b in corner]
+    boxes += sorted(partops.FORM_BOXES.items())
     ts = partops.ops_tasks(tier, boxes, ["C02"])
+    ts += partops.dive_tasks(tier, sorted(partops.DIVE_BOXES.items()), ["C02"])
+    for algo in ("T_HOO", "SOO", "Zooming"):
+        for part, K in configs.PART_VARIANTS:
+            for bname in ("sq2@a", "int2"):
+                cfg = configs.cfg(algo, part, K, partops.FORM_BOXES[bname], **configs.default_params(algo, 100))
+                cfg["alias_rows"] = bname.endswith("@a")
+                ts.append({"kind": "algo", "label": "form/%s/%s%s/%s" % (algo, part, K or "", bname), "cfg": cfg, "mode": "dev",
+                           "T": 20 if (K or 2) <= 3 else 10, "R": list(configs.R2), "base": "peak", "k": 1, "max_exec": 1500})
     for algo in ("T_HOO", "HCT", "SOO", "Zooming", "SequOOL", "DOO"):
         for part, K in configs.PART_VARIANTS:
             for box in ("nd1", "mix2"):
@@ -65,12 +74,16 @@ def _nontrivial(ctx):
 def run_task(task):
     if task["kind"] == "ops":
         return partops.run_task(task)
+    if task["kind"] == "dive":
+        return partops.run_dive(task)
     return run_algo_task(task, _mk, nontrivial=_nontrivial)
 
 
 def replay(task, script):
     if task["kind"] == "ops":
         return partops.replay(task, script)
+    if task["kind"] == "dive":
+        return partops.replay_dive(task, script)
     return replay_algo(task, script, _mk)
 
 
